@@ -208,6 +208,10 @@ def run_suites(ctx):
             cases[k_] = c_[:6]
     for k_, (trees, at_level, only, pats, nt, tnames) in enumerate(cases):
         options = types.SimpleNamespace(at_level=at_level, only_level=only, require_unique_ids=False,
+                                        # (--layer patterns are applied to the layers of the registered tests by the
+                                        # Filter feature afterwards: collection itself does not look at them)
+                                        layer=rng.choice([None, None, ["wm.L1"], ["!L2"], ["L3", "!wm.L1"], ["UnitTests"]]),
+                                        unit=False, non_unit=False, shuffle=False, shuffle_seed=None,
                                         test=pats, module=["."], keepbytecode=True, post_mortem=False,
                                         resume_layer=child_of.get(k_), resume_number=1 if k_ in child_of else 0,
                                         processes=1)
